@@ -9,7 +9,12 @@ Oracle (independent of the model: own CME propensities and Bernstein diffusion c
 Gillespie — consecutive samples differ by the (chemostat-masked) effect of exactly one channel with positive
 propensity in the state before, states are non-negative integers, time strictly increases,
 `(t' − t)·a0 = ln(1/u2)`; tau-leap — the logged Poisson means are exactly the positive `propensity·dt`, one per
-channel, and the state changes by `Σ count·effect`.
+channel, and the state changes by `Σ count·effect`.  A Gillespie run that the ENGINE declares complete before `t_max`
+must end in a state in which no event is possible (a0 = 0 by the oracle's own rate law): an infinite waiting time is
+the master equation's only when every propensity is zero.
+Magnitudes: a stream of scripts holds 2^24 .. 2^40 molecules (odd values around 2^31 and 2^32) of one species in some
+cells — as a reactant with a constant scaled so that a0 stays O(1..100), or as a bystander next to ordinary low-copy
+reactions — on grid and graph, both engines.
 """
 import math
 from fractions import Fraction
@@ -37,7 +42,9 @@ GEN_GROUPS = ["Stoch", "EngineCpp"]
 RULE = ("random networks (1..4 species, 0..3 reversible reactions, orders 0..3 with repeated reactants, per-environment "
         "constants with zeros, chemostats) x grids (all 8 boundary settings, periodic axes of length 1 and 2) / graphs "
         "(heterogeneous volumes, parallel edges, isolated nodes) x seeds; every step of every trajectory is one "
-        "evaluation; non-trivial = the step changed the state; distinct by (script, step index)")
+        "evaluation; non-trivial = the step changed the state; distinct by (script, step index); plus scripts in which one "
+        "species (reactant of order 1..2 with constants ~2^-31, or a bystander) holds 2^24..2^40 molecules in some cells "
+        "(values around 2^31 / 2^32, odd), and the engine's own end of a Gillespie run judged by a0 = 0")
 ASSUMPTIONS = [
     "uniform draws are in [0,1), Poisson draws are non-negative integers (contracts of the std primitives); their "
     "distributions and mt19937 are trusted — no statistical test is run",
@@ -178,12 +185,82 @@ def gen_case(ctx, k):
     return case
 
 
+BIG_COUNTS = [2 ** 31, 2 ** 31 + 1, 2 ** 31 - 1, 2 ** 31 + 12345, 3 * 10 ** 9 + 7, 2 ** 32 - 1, 2 ** 32 + 3, 2 ** 33 + 5,
+              2 ** 36 + 7, 2 ** 40 + 1, 2 ** 24 + 1, 2 ** 31 + 2 ** 24 + 1]
+
+
+def gen_big(ctx, j):
+    """magnitudes: one species holds 2^24 .. 2^40 molecules (around 2^31 / 2^32, odd) in some cells.  Either it reacts
+    (order 1 or 2, constants scaled by 2^-31 / 2^-62 so that the total propensity stays moderate and time keeps
+    increasing in double precision) or it is a bystander of ordinary low-copy reactions of the other species in the same
+    cells.  Both engines, grid and graph, chemostated big entries, non-default time units."""
+    rng = ctx.rng
+    option = "gillespie" if j % 2 == 0 else "tauleap"
+    kind = "graph" if (j // 2) % 2 == 0 else "grid"
+    nenv = rng.choice([1, 1, 2])
+    space, info = stoch_gen.rand_space(rng, kind=kind, nenv=nenv, max_cells=4)
+    n = info["n"]
+    ns = rng.randint(2, 3)
+    net = stoch_gen.rand_network(rng, ns=ns, nr=0, nenv=nenv, chem_p=0.0)
+    labs = [sp_["label"] for sp_ in net["species"]]
+    b = rng.randrange(ns)
+    big, small_labs = labs[b], [l for l in labs if l != labs[b]]
+    tiny = 2.0 ** -31
+    net["species"][b]["D"] = rng.choice([0.0, tiny, tiny / 2, tiny * 2])
+    for sp_ in net["species"]:
+        if sp_["label"] != big and rng.random() < 0.5:
+            sp_["D"] = float(rng.choice([0.25, 0.5, 1]))
+    bystander = rng.random() < 0.35
+    reactions = []
+    s0 = rng.choice(small_labs)
+    if not bystander:
+        reactions.append({"eq": "%s -> %s" % (big, s0), "k+": tiny * rng.choice([1, 2, 4]), "k-": float(rng.choice([0, 0.5, 1]))})
+        if rng.random() < 0.35:
+            reactions.append({"eq": "%s + %s -> %s" % (big, s0, rng.choice(["", "2 " + s0, rng.choice(small_labs)])),
+                              "k+": tiny * rng.choice([0.5, 1]), "k-": 0})
+        if rng.random() < 0.3:
+            reactions.append({"eq": "2 %s -> %s" % (big, s0), "k+": tiny * tiny * rng.choice([0.5, 1, 2]), "k-": 0})
+    if bystander or rng.random() < 0.6:
+        for _try in range(20):
+            lhs, rhs = stoch_gen.rand_side(rng, small_labs, 3), stoch_gen.rand_side(rng, small_labs, 2)
+            if sorted(lhs) != sorted(rhs):
+                reactions.append({"eq": "%s -> %s" % (stoch_gen.side_text(lhs, rng), stoch_gen.side_text(rhs, rng)),
+                                  "k+": float(rng.choice([0.25, 0.5, 1, 2])), "k-": float(rng.choice([0, 0, 0.5]))})
+                break
+    if bystander and not reactions:
+        reactions.append({"eq": "%s -> " % s0, "k+": 1.0, "k-": 0.5})
+    net["reactions"] = reactions
+    state = [float(rng.choice([0, 1, 2, 3, 5, 8])) for _ in range(ns * n)]
+    cells = [i for i in range(n) if rng.random() < 0.6] or [rng.randrange(n)]
+    for i in cells:
+        state[b * n + i] = float(rng.choice(BIG_COUNTS))
+    if bystander:
+        for l in small_labs:                       # something to react with in the cells that hold the big population
+            for i in cells:
+                state[labs.index(l) * n + i] = float(rng.choice([3, 5, 8]))
+    case = {"net": net, "space": space, "kind": kind, "option": option, "seed": rng.randint(0, 2 ** 31 - 1),
+            "dt": 1 / 2048, "tmax": 1e9, "state": state,
+            "mode": "none",         # the state is integer; re-drawing 2^31.. molecules one by one costs ~10^5..10^6 draws
+            "max_iter": ctx.n(60, 800) if option == "gillespie" else ctx.n(4, 4),
+            "edge": info["edge"] if kind == "grid" else list(info["edge"]),
+            "cls": "counts-2^24..2^40" + ("-bystander" if bystander else "-reactant")}
+    if rng.random() < 0.3:
+        chem = [0] * (ns * n)
+        for i in cells:
+            if rng.random() < 0.6:
+                chem[b * n + i] = 1
+        case["chem"] = chem
+    if rng.random() < 0.35:
+        case["units"] = {"time": rng.choice(["ms", "min", "s"]), "quantity": "molecule"}
+    return case
+
+
 def LAB(case):
     return [sp_["label"] for sp_ in case["net"]["species"]]
 
 
 def small(case):
-    return {k: case[k] for k in ("net", "space", "kind", "option", "seed", "dt", "tmax", "state", "max_iter", "edge", "chem", "set_chem", "units", "before", "same_object") if k in case}
+    return {k: case[k] for k in ("net", "space", "kind", "option", "seed", "dt", "tmax", "state", "max_iter", "edge", "chem", "set_chem", "units", "before", "same_object", "mode") if k in case}
 
 
 def own_rates(case, arr):
@@ -276,6 +353,29 @@ def check_gillespie(ctx, case, res, rates, stats):
     return a0s
 
 
+def check_stop(ctx, case, res, rates):
+    """the engine's own end of a Gillespie run: declared complete before t_max only if no event is possible any more"""
+    if case["option"] != "gillespie" or not res.get("complete") or not res["x"] or not res["t"]:
+        return True
+    if res.get("iterations", 0) >= case["max_iter"]:
+        return True                                # stopped by the harness
+    if not (res["t"][-1] < case["tmax"]):
+        return True
+    x = [frac(v) for v in res["x"][-1]]
+    ch = rates.channels(x)
+    a0 = sum(c[0] for c in ch)
+    ctx.count("gillespie_runs_ended_by_engine")
+    if a0 > 0:
+        ctx.violation("gillespie-stopped-with-possible-events",
+                      "the Gillespie engine declared the run complete before t_max in a state whose total master-equation "
+                      "propensity is positive (the waiting time to the next event is exponential with rate a0, not infinite)",
+                      dict(small(case), step=len(res["x"]) - 1, x=[_f(v) for v in x], t=res["t"][-1]),
+                      impl={"steps_taken": len(res["x"]) - 1, "complete": True},
+                      expected={"a0": _f(a0), "possible_events": [list(map(str, c[2])) for c in ch][:12]})
+        return False
+    return True
+
+
 def check_tauleap(ctx, case, res, rates, stats):
     n = rates.n
     xs = [[frac(v) for v in row] for row in res["x"]]
@@ -320,6 +420,7 @@ def check_tauleap(ctx, case, res, rates, stats):
 def run(ctx):
     nscripts = ctx.n(48, 420)
     cases = [gen_case(ctx, k) for k in range(nscripts)]
+    cases += [gen_big(ctx, j) for j in range(ctx.n(16, 120))]
     total_model_steps = ctx.n(4000, 90000)
     per_script = max(10, total_model_steps // nscripts)
     stats = {"steps": 0, "changed": 0}
@@ -371,9 +472,13 @@ def run(ctx):
                         ctx.count("periodic_axis_len_%d" % sp[sz])
             nsteps = len(res["x"]) - 1
             before = stats["steps"]
+            if res["x"] and max(res["x"][0]) >= 2 ** 31:
+                ctx.count("scripts_with_counts_at_least_2^31")
             if case["option"] == "gillespie":
                 a0s = check_gillespie(ctx, case, res, rates, stats)
                 if a0s is None:
+                    continue
+                if not check_stop(ctx, case, res, rates):
                     continue
                 steps = list(range(nsteps))
                 if nsteps > per_script:
@@ -385,6 +490,10 @@ def run(ctx):
                     ops.append({"op": "gillespie_step_m", "eng": eng, "x": [rstr(v) for v in res["x"][k]], "u1": rstr(u1),
                                 "L": rstr(math.log(1 / u2))})
                     meta.append((sid, "g", k, a0s[k]))
+                if res.get("complete") and res.get("iterations", 0) < case["max_iter"] and res["t"] and res["t"][-1] < case["tmax"]:
+                    # the engine ended the run itself: the model (theorem stops_iff_no_event) stops exactly when a0 = 0
+                    ops.append({"op": "gillespie_step_m", "eng": eng, "x": [rstr(v) for v in res["x"][-1]], "u1": "1/2", "L": "1"})
+                    meta.append((sid, "e", nsteps, None))
             else:
                 ok = check_tauleap(ctx, case, res, rates, stats)
                 if not ok:
@@ -412,7 +521,14 @@ def run(ctx):
             cse = dict(small(case), step=k)
             o = ans.get("ok")
             if o is None:
-                ctx.disagree("gillespie_step" if kindc == "g" else "tauleap_step", cse, "engine stepped", ans)
+                ctx.disagree("gillespie_step" if kindc in ("g", "e") else "tauleap_step", cse, "engine stepped", ans)
+                continue
+            if kindc == "e":
+                if not o.get("complete"):
+                    ctx.disagree("gillespie_step", cse, "engine declared the run complete before t_max", {"a0": o.get("a0")},
+                                 note="the model still has a possible event in the final state")
+                else:
+                    ctx.count("model_run_ends_confirmed")
                 continue
             nxt = [frac(v) for v in res["x"][k + 1]]
             if kindc == "g":
@@ -449,9 +565,37 @@ def run(ctx):
                      "mean'; the distributions of the std primitives are trusted (C07 partial by design)")
 
 
+def search(ctx):
+    """failing-input search (an obligation broke, nothing failed yet): more scripts of the magnitude stream and of the
+    ordinary generator, judged by the oracle only"""
+    if ctx.extra.get("searched"):
+        return
+    ctx.extra["searched"] = True
+    stats = {"steps": 0, "changed": 0}
+    rounds = 0
+    while ctx.time_left() > 20 and not ctx.violations and rounds < 6:
+        rounds += 1
+        part = [gen_big(ctx, j) for j in range(40)] + [gen_case(ctx, k) for k in range(24)]
+        results = stoch_gen.run_batch("stoch_gen", "child_run_seq", part, kind="shim", timeout=ctx.n(20, 120))
+        for case, res in zip(part, results):
+            if res is None or res.get("hang"):
+                continue
+            if "crash" in res or "exception" in res:
+                ctx.violation("engine-failure:" + case["option"], "the engine crashed / raised on a valid script: %s" %
+                              (res.get("exception") or res.get("crash")), small(case))
+                continue
+            rates = own_rates(case, res["arr"])
+            if case["option"] == "gillespie":
+                if check_gillespie(ctx, case, res, rates, stats) is not None:
+                    check_stop(ctx, case, res, rates)
+            else:
+                check_tauleap(ctx, case, res, rates, stats)
+    ctx.notes.append("search(): %d extra rounds of 64 scripts (magnitude stream + ordinary generator), oracle only" % rounds)
+
+
 def replay(ctx, rec):
     case = rec.get("case", rec)
-    base = {k: case[k] for k in ("net", "space", "kind", "option", "seed", "dt", "tmax", "state", "max_iter", "edge", "chem", "set_chem", "units", "before", "same_object") if k in case}
+    base = {k: case[k] for k in ("net", "space", "kind", "option", "seed", "dt", "tmax", "state", "max_iter", "edge", "chem", "set_chem", "units", "before", "same_object", "mode") if k in case}
     res = stoch_gen.run_batch("stoch_gen", "child_run_seq", [base], kind="shim", timeout=60)[0]
     if res is None or res.get("hang") or "crash" in res or "exception" in res:
         return False, {"case": base, "impl": res}
@@ -470,7 +614,8 @@ def replay(ctx, rec):
     rates = own_rates(base, res["arr"])
     st = {"steps": 0, "changed": 0}
     if base["option"] == "gillespie":
-        check_gillespie(c, base, res, rates, st)
+        if check_gillespie(c, base, res, rates, st) is not None:
+            check_stop(c, base, res, rates)
     else:
         check_tauleap(c, base, res, rates, st)
     return (not c.v), {"case": base, "steps": st["steps"], "failures": c.v}
